@@ -62,7 +62,7 @@ def seq_jobs(rng, classes, runs_per_class, programs=300, flavor="plain", hang_s=
 
 
 def spinalt_jobs(rng, classes, profiles, runs, seq_runs=1):
-    """the second documented spin configuration (CPP_UTILITY_SPINLOCK_RETRY_NUM=1, CPP_UTILITY_BACKOFF_TIME=0)"""
+    """the second spin configuration (CPP_UTILITY_SPINLOCK_RETRY_NUM=0, CPP_UTILITY_BACKOFF_TIME=1)"""
     jobs = lock_jobs(rng, classes, profiles, runs, variant="spinalt", chaos_choices=(2, 3))
     jobs += seq_jobs(rng, classes, seq_runs, variant="spinalt")
     return jobs
